@@ -16,7 +16,7 @@
        new workload was deployed (a message MReplace id (Some new) false (Some err); is_window).  With that outcome
        the statement is FALSE of the code as it is: C10_replace_refuted (a replace whose removal of the old
        workload fails leaves old and new workload recorded on one allocation; known finding
-       E1-C10-replace-remove-old-unchecked).  C10_replace_op is the whole-operation theorem.
+       replace-remove-old-fails).  C10_replace_op is the whole-operation theorem.
      * run-and-wait: create's hypotheses (C10_lambda_op: the whole operation keeps Inv at every fault position).
    The per-operation theorems below are the same statement one operation at a time (C10_step); C10_create_capacity
    adds usage <= capacity for create; C10_fault_addresses: every fault address (method, target, ordinal) of the
